@@ -2,17 +2,19 @@
    Statements only; the model is Model/FileGraph.v (record_iter_changes, _heads,
    _do_generate_text_key_index), the proofs are in Theory/FileGraph.v.
 
-   Vocabulary.  cfg = (per_file_heads, rich_root): per_file_heads = true is
-   PackCommitBuilder._heads (2a, pack-0.92), false is VersionedFileCommitBuilder._heads
-   (heads in the revision graph: knit formats, RemoteRepository).  A history is
+   Vocabulary.  [now rich] is the configuration of the current code: every commit builder
+   (PackCommitBuilder; VersionedFileCommitBuilder since fix 2c4765b, used by the knit formats and
+   by RemoteRepository) takes heads in the per-file graph; rich = supports_rich_root().
+   [old_global_heads rich] is VersionedFileCommitBuilder._heads BEFORE 2c4765b (heads in the
+   revision graph); it appears only in the C02_old_* statements at the end.  A history is
    [run c ops]: ops is ANY list of operations (parents, tree) -- initial commit, commit,
    merge with any number of parents, ghost parents -- subject only to [ops_ok] (parents are
    earlier revisions or ghosts whose id is never reused).  [entry_at h r f] is the
    inventory entry of file f in revision r, [e_rev] its last-changed revision,
    [text_parents h f r] the parents stored for the text key (f, r), [parent_versions h f r]
    the last-changed revisions of f in the parents of r (in parent order),
-   [hgraph c h f] the graph in which heads are taken (per-file graph of f, or the revision
-   graph), [checker c h] what _do_generate_text_key_index computes, [inconsistent c h] the
+   [file_dag (h_texts h) f] the per-file graph of f (the graph in which heads are taken),
+   [checker c h] what _do_generate_text_key_index computes, [inconsistent c h] the
    number of entries of check's inconsistent_parents.  [versioned c e] is false only for
    the tree root of formats without rich roots (it has no per-file graph). *)
 From Coq Require Import List Arith Bool.
@@ -42,32 +44,33 @@ Print Assumptions C02_decision_table.
 (* ---- per-file parents are exactly the heads among the versions in the revision's parents ---- *)
 
 Theorem C02_text_parents_are_heads :
-  forall c ops, ops_ok c ops = true ->
-  let h := run c ops in
+  forall rich ops, ops_ok (now rich) ops = true ->
+  let h := run (now rich) ops in
   forall f r ps, text_parents h f r = Some ps ->
-    ps = oheads (hgraph c h f) (parent_versions h f r)
-    /\ (forall p, In p ps <-> In p (heads (hgraph c h f) (parent_versions h f r))).
-Proof. exact text_parents_are_heads. Qed.
+    ps = oheads (file_dag (h_texts h) f) (parent_versions h f r)
+    /\ (forall p, In p ps <-> In p (heads (file_dag (h_texts h) f) (parent_versions h f r))).
+Proof. intros rich ops. exact (text_parents_are_heads (now rich) ops). Qed.
 Print Assumptions C02_text_parents_are_heads.
 
 (* [heads] is the set of maximal keys (Theory.DagFacts.heads_spec), spelled out for the stored parents *)
 Theorem C02_text_parents_maximal :
-  forall c ops, ops_ok c ops = true ->
-  let h := run c ops in
+  forall rich ops, ops_ok (now rich) ops = true ->
+  let h := run (now rich) ops in
   forall f r ps, text_parents h f r = Some ps ->
   forall p, In p ps <->
     In p (parent_versions h f r)
-    /\ forall p', In p' (parent_versions h f r) -> p' <> p -> is_ancestor (hgraph c h f) p p' = false.
+    /\ forall p', In p' (parent_versions h f r) -> p' <> p -> is_ancestor (file_dag (h_texts h) f) p p' = false.
 Proof.
-  intros c ops OK h f r ps T p.
-  destruct (text_parents_are_heads c ops OK f r ps T) as [_ H]. fold h in H. rewrite H. apply heads_spec.
+  intros rich ops OK h f r ps T p.
+  destruct (text_parents_are_heads (now rich) ops OK f r ps T) as [_ H]. fold h in H. rewrite H. apply heads_spec.
 Qed.
 Print Assumptions C02_text_parents_maximal.
 
 (* ---- last-changed revisions ------------------------------------------------------------------ *)
 
 Theorem C02_last_changed_is_latest_change :
-  forall c ops, ops_ok c ops = true ->
+  forall rich ops, ops_ok (now rich) ops = true ->
+  let c := now rich in
   let h := run c ops in
   forall r f e, entry_at h r f = Some e ->
     (* the named revision is r or an ancestor of r and holds the identical entry
@@ -80,20 +83,21 @@ Theorem C02_last_changed_is_latest_change :
         (* r is named only if the file is not identical to the one head among the parents' versions
            (it changed against it, or there are several heads, or none) *)
         /\ (e_rev e = r -> forall pe, In pe (parent_entries_at (h_g h) (h_trees h) f r) ->
-              oheads (hgraph c h f) (parent_versions h f r) = [e_rev pe] -> e_attrs pe <> e_attrs e)
+              oheads (file_dag (h_texts h) f) (parent_versions h f r) = [e_rev pe] -> e_attrs pe <> e_attrs e)
         (* otherwise the entry is the parent entry holding the unique head: nothing changed since *)
         /\ (e_rev e <> r -> In e (parent_entries_at (h_g h) (h_trees h) f r)
-                            /\ oheads (hgraph c h f) (parent_versions h f r) = [e_rev e])).
-Proof. exact last_changed_is_latest_change. Qed.
+                            /\ oheads (file_dag (h_texts h) f) (parent_versions h f r) = [e_rev e])).
+Proof. intros rich ops. exact (last_changed_is_latest_change (now rich) ops). Qed.
 Print Assumptions C02_last_changed_is_latest_change.
 
 (* plain commits: last-changed = this revision iff the entry differs from the parent's (or is new) *)
 Theorem C02_linear_commit :
-  forall c ops, ops_ok c ops = true ->
+  forall rich ops, ops_ok (now rich) ops = true ->
+  let c := now rich in
   let h := run c ops in
   forall r p f e, parents (h_g h) r = [p] -> entry_at h r f = Some e -> versioned c e = true ->
     (e_rev e = r <-> forall pe, entry_at h p f = Some pe -> e_attrs pe <> e_attrs e).
-Proof. exact linear_commit. Qed.
+Proof. intros rich ops. exact (linear_commit (now rich) ops). Qed.
 Print Assumptions C02_linear_commit.
 
 (* The literal reading of the property ("the most recent revision in which the file actually
@@ -102,7 +106,7 @@ Print Assumptions C02_linear_commit.
    documented design (record_iter_changes: "the per-file graph will reflect a merge"), not a defect;
    C02_last_changed_is_latest_change is the exact statement. *)
 Theorem C02_last_changed_literal_refuted :
-  let c := mkCfg true true in
+  let c := now true in
   exists ops r f e, ops_ok c ops = true /\ entry_at (run c ops) r f = Some e /\ e_rev e = r
     /\ parents (h_g (run c ops)) r <> []
     /\ (forall p, In p (parents (h_g (run c ops)) r) ->
@@ -113,46 +117,27 @@ Print Assumptions C02_last_changed_literal_refuted.
 
 (* ---- the consistency check ---------------------------------------------------------------------- *)
 
-(* PackCommitBuilder (2a, pack-0.92): for every history the checker's expected parents are the
-   stored parents, for every text key; check reports no inconsistent parents *)
+(* every builder of the current code, every format flavour: for every history the checker's
+   expected parents are the stored parents, for every text key; check reports no inconsistent
+   parents (unguarded since fix 2c4765b; before it this needed the guard [heads_agree] for
+   VersionedFileCommitBuilder, see C02_old_* below) *)
 Theorem C02_checker_agrees :
-  forall c ops, per_file_heads c = true -> ops_ok c ops = true ->
-    checker c (run c ops) = h_texts (run c ops) /\ inconsistent c (run c ops) = 0.
-Proof. exact checker_agrees. Qed.
+  forall rich ops, ops_ok (now rich) ops = true ->
+    checker (now rich) (run (now rich) ops) = h_texts (run (now rich) ops)
+    /\ inconsistent (now rich) (run (now rich) ops) = 0.
+Proof. intros rich ops. exact (checker_agrees (now rich) ops eq_refl). Qed.
 Print Assumptions C02_checker_agrees.
 
-(* VersionedFileCommitBuilder._heads (revision-graph heads: knit formats, RemoteRepository): FALSE.
-   Witness: delete a file, re-add it with the same file id, merge with a branch that kept the old
-   version.  Stored parents [3], the checker expects [1; 3].  Replayed on a real knit repository:
-   check reports the inconsistent parents (candidate finding C02-global-heads-readd). *)
-Theorem C02_checker_agrees_global_heads_refuted :
+(* the regression input of the repaired finding (delete, re-add with the same file id, merge with a
+   branch that kept the old version) now records both heads *)
+Theorem C02_readd_records_both_heads :
   forall rich,
-  let c := mkCfg false rich in
-  exists ops, ops_ok c ops = true /\ heads_agree c ops = false
-              /\ inconsistent c (run c ops) <> 0
-              /\ text_parents (run c ops) 3 6 = Some [3]
-              /\ text_parents_in (checker c (run c ops)) 3 6 = Some [1; 3].
-Proof. exact checker_global_refuted. Qed.
-Print Assumptions C02_checker_agrees_global_heads_refuted.
-
-(* ... and it holds under the executable guard "at every commit the revision-graph heads of the
-   candidates are their per-file heads" *)
-Theorem C02_checker_agrees_global_heads_guarded :
-  forall rich ops,
-  let c := mkCfg false rich in
-  ops_ok c ops = true -> heads_agree c ops = true ->
-    checker c (run c ops) = h_texts (run c ops) /\ inconsistent c (run c ops) = 0.
-Proof. exact checker_agrees_global_guarded. Qed.
-Print Assumptions C02_checker_agrees_global_heads_guarded.
-
-(* in every history, whatever the builder: a head in the revision graph is a head in the per-file
-   graph, so revision-graph heads can only drop per-file parents, never add a wrong one *)
-Theorem C02_global_heads_subset_file_heads :
-  forall c ops, ops_ok c ops = true ->
-  let h := run c ops in
-  forall f cands x, In x (oheads (h_g h) cands) -> In x (oheads (file_dag (h_texts h) f) cands).
-Proof. exact global_heads_subset_file_heads. Qed.
-Print Assumptions C02_global_heads_subset_file_heads.
+  let c := now rich in
+  ops_ok c readd_ops = true
+  /\ text_parents (run c readd_ops) 3 5 = Some [3; 1] /\ text_parents (run c readd_ops) 3 6 = Some [1; 3]
+  /\ inconsistent c (run c readd_ops) = 0.
+Proof. intros rich. destruct rich; vm_compute; repeat split. Qed.
+Print Assumptions C02_readd_records_both_heads.
 
 (* ---- the code's merged_ids / parent_entries / carry-over logic computes the specification --------- *)
 
@@ -169,14 +154,49 @@ Theorem C02_commit_entry_refines_spec :
 Proof. exact commit_entry_spec. Qed.
 Print Assumptions C02_commit_entry_refines_spec.
 
+(* ---- the OLD behaviour (VersionedFileCommitBuilder._heads before fix 2c4765b) ---------------------- *)
+(* These three statements are about [old_global_heads], heads taken in the revision graph; they
+   document the repaired finding C02-global-heads-readd and say nothing about the current code. *)
+
+(* Witness: delete a file, re-add it with the same file id, merge with a branch that kept the old
+   version.  Stored parents [3], the checker expects [1; 3]. *)
+Theorem C02_old_global_heads_checker_refuted :
+  forall rich,
+  let c := old_global_heads rich in
+  exists ops, ops_ok c ops = true /\ heads_agree c ops = false
+              /\ inconsistent c (run c ops) <> 0
+              /\ text_parents (run c ops) 3 6 = Some [3]
+              /\ text_parents_in (checker c (run c ops)) 3 6 = Some [1; 3].
+Proof. exact checker_global_refuted. Qed.
+Print Assumptions C02_old_global_heads_checker_refuted.
+
+(* the old code was right exactly under the executable guard "at every commit the revision-graph
+   heads of the candidates are their per-file heads" *)
+Theorem C02_old_global_heads_checker_guarded :
+  forall rich ops,
+  let c := old_global_heads rich in
+  ops_ok c ops = true -> heads_agree c ops = true ->
+    checker c (run c ops) = h_texts (run c ops) /\ inconsistent c (run c ops) = 0.
+Proof. exact checker_agrees_global_guarded. Qed.
+Print Assumptions C02_old_global_heads_checker_guarded.
+
+(* in every history, whatever the builder: a head in the revision graph is a head in the per-file
+   graph, so the old revision-graph heads could only drop per-file parents, never add a wrong one *)
+Theorem C02_old_global_heads_subset_file_heads :
+  forall c ops, ops_ok c ops = true ->
+  let h := run c ops in
+  forall f cands x, In x (oheads (h_g h) cands) -> In x (oheads (file_dag (h_texts h) f) cands).
+Proof. exact global_heads_subset_file_heads. Qed.
+Print Assumptions C02_old_global_heads_subset_file_heads.
+
 (* non-vacuity: criss-cross, revert after merge, identical parallel change, kind change/rename,
    delete + re-add (Theory/FileGraph.v: ex_crisscross, ex_revert_after_merge, parallel_ops,
    ex_kind_change, readd_ops) are histories satisfying ops_ok on which the statements above
    speak about carried-over entries, per-file merge nodes and new versions. *)
 Example C02_nonvacuous :
-  ops_ok (mkCfg true true) crisscross_ops = true /\ ops_ok (mkCfg true true) revert_ops = true
-  /\ ops_ok (mkCfg true true) kind_ops = true /\ ops_ok (mkCfg true false) readd_ops = true
-  /\ text_parents (run (mkCfg true true) crisscross_ops) 3 5 = Some [3; 4]
-  /\ option_map e_rev (entry_at (run (mkCfg true true) revert_ops) 4 3) = Some 2.
+  ops_ok (now true) crisscross_ops = true /\ ops_ok (now true) revert_ops = true
+  /\ ops_ok (now true) kind_ops = true /\ ops_ok (now false) readd_ops = true
+  /\ text_parents (run (now true) crisscross_ops) 3 5 = Some [3; 4]
+  /\ option_map e_rev (entry_at (run (now true) revert_ops) 4 3) = Some 2.
 Proof. vm_compute. repeat split. Qed.
 Print Assumptions C02_nonvacuous.
